@@ -97,6 +97,42 @@ func typeSet(v spec.Val) string {
 	return strings.Join(out, ",")
 }
 
+// ---- embedded structs: promoted fields are written under their own ids, exactly like the flat struct
+
+var embFlatStruct = (&tgen.Struct{Fields: []tgen.Field{
+	{ID: 1, Elem: tgen.Elem{Kind: tgen.Int32}}, {ID: 2, Elem: tgen.Elem{Kind: tgen.String}}, {ID: 3, Elem: tgen.Elem{Kind: tgen.Int64}},
+	{ID: 4, Elem: tgen.Elem{Kind: tgen.Int32}, Wrap: tgen.ListOf}, {ID: 5, Elem: tgen.Elem{Kind: tgen.Int16}}, {ID: 6, Elem: tgen.Elem{Kind: tgen.Bytes}},
+	{ID: 7, Elem: tgen.Elem{Kind: tgen.Int64}}, {ID: 8, Elem: tgen.Elem{Kind: tgen.Float64}}, {ID: 9, Elem: tgen.Elem{Kind: tgen.Int32}},
+	{ID: 10, Elem: tgen.Elem{Kind: tgen.String}}, {ID: 11, Elem: tgen.Elem{Kind: tgen.Bool}}, {ID: 12, Elem: tgen.Elem{Kind: tgen.String}},
+}}).Build()
+
+func embeddedBytes(c *explore.Ctx) {
+	p := protos[c.Choose(3)]
+	sh := c04.EmbShapes[c.Choose(len(c04.EmbShapes))]
+	pattern := c.Choose(13)
+	flat := c04.FlatValue(pattern)
+	v := sh.Mk()
+	c04.SetByName(v, flat)
+	fv := reflect.New(embFlatStruct.Type).Elem()
+	src := reflect.ValueOf(flat)
+	for i := 0; i < src.NumField(); i++ {
+		fv.Field(i).Set(src.Field(i))
+	}
+	ast := tgen.ToAST(embFlatStruct, fv)
+	want := spec.Encode(p, nil, ast, spec.Options{})
+	desc := fmt.Sprintf("%s, value pattern %d, over %s", sh.Name, pattern, p)
+	var got []byte
+	var err error
+	if pv, ps := explore.Catch(func() { got, err = thrift.Marshal(impl(p), v) }); pv != nil || err != nil {
+		c.Fail("embedded:Marshal:"+ps, "Marshal fails (%v %v) for %s", pv, err, desc)
+	} else if !bytes.Equal(got, want) {
+		c.Fail("embedded:bytes-differ:"+p.String(), "Marshal % x, specification % x (%s) for %s", trunc(got), trunc(want), firstDiff(got, want), desc)
+	}
+	c.NontrivialStr("embedded", p.String(), sh.Name, fmt.Sprint(pattern))
+	c.Outcome(fmt.Sprintf("%s all=%v", p, pattern == 0))
+	c.Case(map[string]any{"protocol": p.String(), "shape": sh.Name, "pattern": pattern, "bytes": fmt.Sprintf("%x", trunc(got))})
+}
+
 func marshalBytes(c *explore.Ctx) {
 	s := tgen.EnumStruct(c, tgen.Options{MaxFields: 2, Thorough: c.Thorough()})
 	v := tgen.EnumValue(c, s)
@@ -663,6 +699,7 @@ func Spec() *explore.Spec {
 		ID: "C13",
 		Families: []*explore.Family{
 			{Name: "golden", Body: golden, Doc: "worked examples and constants transcribed from the specifications pin the reference model"},
+			{Name: "embedded-bytes", ShardDepth: 2, Body: embeddedBytes, Doc: "struct types whose fields are promoted through up to 5 levels of embedding (3 shapes) x 13 value patterns x 3 protocols: Marshal bytes equal the specification's encoding of the flat field list"},
 			{Name: "marshal-bytes", ShardDepth: 2, Body: marshalBytes, Bound: func(string) int { return 1 }, Doc: "struct types (1-2 fields, C04 palette) x id layouts x values x 3 protocols: Marshal bytes equal the specification model's bytes (decoded content for multi-entry maps/sets)"},
 			{Name: "writer-calls", ShardDepth: 2, Body: writerCalls, Doc: "every sequence of up to 2 (3 thorough) Writer calls over an alphabet of ~330 calls with boundary arguments x 3 protocols, byte-for-byte against the model"},
 			{Name: "alt-encodings", ShardDepth: 2, Body: altEncodings, Bound: func(string) int { return 1 }, Doc: "every conformant alternative encoding (field order permutations; compact: long field headers, long list headers, non-minimal varints, bool element type 1, combined) is accepted by Unmarshal with the same value"},
